@@ -5,6 +5,7 @@ import (
 	"go/token"
 	"regexp"
 	"strings"
+	"golang.org/x/tools/go/ssa"
 )
 
 var (
@@ -193,4 +194,208 @@ func runC16Struct(c *Ctx, wl *walkLayers) {
 	} else {
 		c.Unk("C16-SCOPE", "(*valid.VStruct).SetRule", "key", token.NoPos, "SetRule not found")
 	}
+}
+
+// runC16More: two more necessary conditions of "programmatic rules and functions, documented
+// scope".
+//   C16-UNKNOWN  the rule name is looked up for every (non-empty) rule item, whatever the value
+//                of the field: the lookup is never skipped because the value is empty, so an
+//                unknown name always produces its error clause
+//   C16-API      the exported wrappers hand an unscoped rule set to SetRule WITHOUT an object;
+//                binding it to the type of the value being validated makes nested values of the
+//                same type receive the override too
+func runC16More(c *Ctx) {
+	p := c.P
+	c.Rule("C16-UNKNOWN", "in every walker the lookup of the rule name is not guarded by an emptiness test of the value", 4)
+	for _, w := range findWalkers(p) {
+		fn := w.Fn
+		loops := naturalLoops(fn)
+		n := 0
+		var bad []string
+		for _, b := range fn.Blocks {
+			for _, ins := range b.Instrs {
+				call, ok := ins.(*ssa.Call)
+				if !ok {
+					continue
+				}
+				cal := staticCallee(&call.Call)
+				if cal == nil || cal.Name() != "getValidFn" {
+					continue
+				}
+				n++
+				c.Sites++
+				// innermost loop containing the lookup: conditions between its header and the call
+				var inner *loopInfo
+				for _, l := range loops {
+					if l.Body[b] && (inner == nil || len(l.Body) < len(inner.Body)) {
+						inner = l
+					}
+				}
+				// an emptiness test of the value inside the rule loop that is not preceded by the lookup
+				if inner != nil {
+					for bb := range inner.Body {
+						iff, ok := bb.Instrs[len(bb.Instrs)-1].(*ssa.If)
+						if !ok || !emptinessOfValue(iff.Cond) {
+							continue
+						}
+						if !(b == bb || b.Dominates(bb)) {
+							bad = append(bad, "the value's emptiness is tested at "+p.Pos(iff.Pos())+" before the rule name was looked up ("+p.Pos(call.Pos())+"): a rule item can be skipped for an empty value without its name ever being checked — an unknown or misspelt rule name is silently accepted")
+						}
+					}
+				}
+				for d := b; d != nil; d = d.Idom() {
+					if inner != nil && d == inner.Header {
+						break
+					}
+					if len(d.Preds) != 1 {
+						continue
+					}
+					iff, ok := d.Preds[0].Instrs[len(d.Preds[0].Instrs)-1].(*ssa.If)
+					if !ok {
+						continue
+					}
+					if emptinessOfValue(iff.Cond) {
+						bad = append(bad, "the rule-name lookup at "+p.Pos(call.Pos())+" is skipped depending on whether the value is empty ("+p.Pos(iff.Pos())+"): an unknown or misspelt rule name on an empty field is silently accepted")
+					}
+				}
+			}
+		}
+		if n == 0 {
+			c.Unk("C16-UNKNOWN", fnName(fn), "lookup", fn.Pos(), "no rule-name lookup found in the walker")
+			continue
+		}
+		c.Check(len(bad) == 0, "C16-UNKNOWN", fnName(fn), "lookup", fn.Pos(), fmt.Sprintf("%d lookup(s), none behind an emptiness test", n), uniqJoin(bad, 2))
+	}
+	// ---- API plumbing
+	c.Rule("C16-API", "exported wrappers pass an unscoped rule set to SetRule without an object; only the nested-rules wrapper passes its map key", 3)
+	sp := p.Pkg("valid")
+	setRule := p.Method("valid", "VStruct", "SetRule")
+	validM := p.Method("valid", "VStruct", "Valid")
+	if sp == nil || setRule == nil || validM == nil {
+		c.Unk("C16-API", "valid", "wrappers", token.NoPos, "SetRule / Valid not found")
+		return
+	}
+	nCalls := 0
+	for _, fn := range p.Funcs {
+		if fn.Pkg != sp || fn.Signature.Recv() != nil || fn.Parent() != nil {
+			continue
+		}
+		var validated []ssa.Value
+		var sets []*ssa.Call
+		for _, b := range fn.Blocks {
+			for _, ins := range b.Instrs {
+				call, ok := ins.(*ssa.Call)
+				if !ok {
+					continue
+				}
+				switch staticCallee(&call.Call) {
+				case validM:
+					validated = append(validated, stripIface(call.Call.Args[1]))
+				case setRule:
+					sets = append(sets, call)
+				}
+			}
+		}
+		for _, call := range sets {
+			nCalls++
+			c.Sites++
+			c.Funcs[fnName(fn)] = true
+			var bad []string
+			objs := variadicElems(call.Call.Args[2])
+			for _, o := range objs {
+				o = stripIface(o)
+				for _, v := range validated {
+					if o == v {
+						bad = append(bad, "the rule set is bound to the type of the value being validated: every nested value of that type gets the override as well (an unscoped rule set applies to the outermost object only)")
+					}
+				}
+			}
+			if len(objs) > 0 && len(bad) == 0 {
+				// only the range key of a map[interface{}]RM may be passed
+				okKey := true
+				for _, o := range objs {
+					ex, isEx := stripIface(o).(*ssa.Extract)
+					if !isEx || ex.Index != 1 {
+						okKey = false
+						continue
+					}
+					if _, isNext := ex.Tuple.(*ssa.Next); !isNext {
+						okKey = false
+					}
+				}
+				if !okKey {
+					bad = append(bad, "SetRule is given an object that is not the key of the caller's per-type rule map")
+				}
+			}
+			c.Check(len(bad) == 0, "C16-API", fnName(fn), "set-rule", call.Pos(), fmt.Sprintf("%d object argument(s)", len(objs)), uniqJoin(bad, 2))
+		}
+	}
+	if nCalls < 3 {
+		c.Unk("C16-API", "valid", "wrappers", token.NoPos, fmt.Sprintf("expected >= 3 wrapper calls of SetRule, found %d", nCalls))
+	}
+}
+
+func stripIface(v ssa.Value) ssa.Value {
+	for {
+		switch x := v.(type) {
+		case *ssa.MakeInterface:
+			v = x.X
+		case *ssa.ChangeInterface:
+			v = x.X
+		default:
+			return v
+		}
+	}
+}
+
+// variadicElems: the elements stored into the backing array of a variadic argument slice.
+func variadicElems(v ssa.Value) []ssa.Value {
+	sl, ok := v.(*ssa.Slice)
+	if !ok {
+		return nil
+	}
+	al, ok := sl.X.(*ssa.Alloc)
+	if !ok {
+		return nil
+	}
+	var out []ssa.Value
+	for _, r := range refs(al) {
+		if ia, ok := r.(*ssa.IndexAddr); ok {
+			for _, rr := range refs(ia) {
+				if st, ok := rr.(*ssa.Store); ok && st.Addr == ia {
+					out = append(out, st.Val)
+				}
+			}
+		}
+	}
+	return out
+}
+
+// emptinessOfValue: is the condition (possibly negated) an emptiness test of a value being
+// validated: reflect.Value.IsZero(), x == "" / len(x) == 0 on a string.
+func emptinessOfValue(cond ssa.Value) bool {
+	for {
+		if u, ok := cond.(*ssa.UnOp); ok && u.Op == token.NOT {
+			cond = u.X
+			continue
+		}
+		break
+	}
+	switch x := cond.(type) {
+	case *ssa.Call:
+		return calleeName(&x.Call) == "(reflect.Value).IsZero"
+	case *ssa.BinOp:
+		if x.Op != token.EQL && x.Op != token.NEQ {
+			return false
+		}
+		for _, pair := range [][2]ssa.Value{{x.X, x.Y}, {x.Y, x.X}} {
+			if s, ok := constString(pair[1]); ok && s == "" {
+				// only the VALUE of a url parameter, not the rule item / rule string
+				if ph, ok := pair[0].(*ssa.Phi); ok && strings.Contains(ph.Comment, "val") && !strings.Contains(ph.Comment, "valid") {
+					return true
+				}
+			}
+		}
+	}
+	return false
 }
